@@ -145,7 +145,7 @@ pub fn drive(args: &Args) -> i32 {
     let mut rng = StdRng::seed_from_u64(args.seed() ^ 0xC15);
     let mut out = std::io::BufWriter::new(std::fs::File::create(args.req("out")).unwrap());
     // (text, feature) atoms without references
-    let plain: [(&str, &str); 18] = [("SUM(", ""), (")", ""), ("+", ""), ("*", ""), (",", ""), ("\"x\"", ""), ("\"A3\"", ""), ("10", ""), ("1.5", ""),
+    let plain: [(&str, &str); 19] = [("SUM(", ""), (")", ""), ("+", ""), ("*", ""), (",", ""), ("\"x\"", ""), ("\"A3\"", ""), ("\"it's\"", ""), ("10", ""), ("1.5", ""),
         ("Rate", ""), ("TRUE", ""), ("ZŁ1", ""), ("été", ""), ("Q1Sales", ""), ("A1B", ""), ("LOG10(", "FuncDigits"), ("TAX2020", "NameCellLike"), ("1E5", "SciNumber")];
     let sheets: [(&str, &str); 4] = [("Data!", ""), ("'My Sheet'!", ""), ("AB1!", "SheetCellLike"), ("ст1!", "")];
     for run in 0..n {
